@@ -71,7 +71,7 @@ Qed.
 (* ------------------------------------------------- _create_buffer --- *)
 
 Lemma create_buffer_spec ovf o : inv o -> ob_buf o = None ->
-  exists o' b, o_create_buffer ovf o = (o', Ok b) /\ ob_buf o' = Some b /\
+  exists o' b, o_create_buffer FNone ovf o = (o', Ok b) /\ ob_buf o' = Some b /\
             inv o' /\ abs o' = ob_strbuf o /\
             ((fb_kind b = KTmp /\ Z.of_N ovf <= lenZ (ob_strbuf o)) \/
              (fb_kind b = KBio /\ lenZ (ob_strbuf o) < Z.of_N ovf)).
@@ -109,7 +109,7 @@ Qed.
 Ltac inv_some Hi Hb := unfold inv in Hi; rewrite Hb in Hi; destruct Hi as (Hs & Hfb & Hk & Hov).
 
 Lemma append_tail_spec ovf s o b : inv o -> ob_buf o = Some b ->
-  exists o', o_append_tail ovf s o b = (o', Ok tt) /\ inv o' /\ abs o' = abs o ++ s /\ ob_buf o' <> None.
+  exists o', o_append_tail FNone ovf s o b = (o', Ok tt) /\ inv o' /\ abs o' = abs o ++ s /\ ob_buf o' <> None.
 Proof.
   intros Hi Hb. assert (Habs0 : abs o = fb_abs b) by (unfold abs; now rewrite Hb).
   rewrite Habs0. inv_some Hi Hb.
@@ -129,7 +129,7 @@ Proof.
 Qed.
 
 Lemma append_spec limit ovf o s : inv o ->
-  exists o', o_append limit ovf o s = (o', Ok tt) /\ inv o' /\ abs o' = abs o ++ s.
+  exists o', o_append FNone limit ovf o s = (o', Ok tt) /\ inv o' /\ abs o' = abs o ++ s.
 Proof.
   intro Hi. unfold o_append. destruct (ob_buf o) as [b|] eqn:Hb.
   - destruct (append_tail_spec ovf s o b Hi Hb) as (o' & H1 & H2 & H3 & _). eauto.
@@ -163,7 +163,7 @@ Qed.
 (* get(numbytes, skip=False): a prefix at least as long as requested, or everything; nothing changes
    except that nothing changes at all *)
 Lemma get_noskip_spec ovf o n : inv o ->
-  exists b, o_get ovf o n false = (o, Ok b) /\ (b = q_peek n (abs o) \/ b = abs o).
+  exists b, o_get FNone ovf o n false = (o, Ok b) /\ (b = q_peek n (abs o) \/ b = abs o).
 Proof.
   intro Hi. unfold o_get. destruct (ob_buf o) as [b|] eqn:Hb.
   - rewrite (get_tail_noskip n o b Hi Hb). eauto.
@@ -171,7 +171,7 @@ Proof.
 Qed.
 
 Lemma get_skip_spec ovf o n : inv o ->
-  exists o', o_get ovf o n true = (o', Ok (q_peek n (abs o))) /\ inv o' /\
+  exists o', o_get FNone ovf o n true = (o', Ok (q_peek n (abs o))) /\ inv o' /\
              abs o' = skipn (length (q_peek n (abs o))) (abs o).
 Proof.
   intro Hi. unfold o_get. destruct (ob_buf o) as [b|] eqn:Hb.
@@ -202,7 +202,7 @@ Proof.
 Qed.
 
 Lemma skip_ok_spec ovf o n ap : inv o -> Z.of_N n <= q_len (abs o) ->
-  exists o', o_skip ovf o n ap = (o', Ok tt) /\ inv o' /\ abs o' = skipn (N.to_nat n) (abs o).
+  exists o', o_skip FNone ovf o n ap = (o', Ok tt) /\ inv o' /\ abs o' = skipn (N.to_nat n) (abs o).
 Proof.
   intros Hi Hn. unfold o_skip. destruct (ob_buf o) as [b|] eqn:Hb.
   - exact (skip_tail_ok n o b Hi Hb Hn).
@@ -217,7 +217,7 @@ Qed.
 (* the error branch of skip: ValueError, the queued bytes are untouched; a
    plain-bytes buffer has been migrated to a file representation on the way *)
 Lemma skip_err_spec ovf o n ap : inv o -> q_len (abs o) < Z.of_N n ->
-  exists o', o_skip ovf o n ap = (o', Exn ValueErrorSkip) /\ inv o' /\ abs o' = abs o /\
+  exists o', o_skip FNone ovf o n ap = (o', Exn ValueErrorSkip) /\ inv o' /\ abs o' = abs o /\
              (ob_buf o <> None -> o' = o) /\ ob_buf o' <> None.
 Proof.
   intros Hi Hn. unfold o_skip. destruct (ob_buf o) as [b|] eqn:Hb.
@@ -231,7 +231,7 @@ Proof.
 Qed.
 
 Lemma getfile_spec ovf o : inv o ->
-  exists o' f, o_getfile ovf o = (o', Ok f) /\ inv o' /\ abs o' = abs o /\
+  exists o' f, o_getfile FNone ovf o = (o', Ok f) /\ inv o' /\ abs o' = abs o /\
                f_closed f = false /\ (f_pos f <= length (f_content f))%nat /\
                skipn (f_pos f) (f_content f) = abs o.
 Proof.
@@ -257,7 +257,7 @@ Lemma step_refines limit ovf o p : inv o -> live p ->
   abs (fst (step limit ovf o p)) = q_next_op (abs o) p /\
   out_ok (abs o) p (snd (step limit ovf o p)).
 Proof.
-  intros Hi Hl. destruct p as [s | n sk | n ap | | |]; unfold step, q_next_op, out_ok; cbn [spec_of].
+  intros Hi Hl. destruct p as [s | n sk | n ap | | |]; unfold step, step_f, q_next_op, out_ok; cbn [spec_of].
   - destruct (append_spec limit ovf o s Hi) as (o' & H1 & H2 & H3). rewrite H1. cbn. auto.
   - destruct sk.
     + destruct (get_skip_spec ovf o n Hi) as (o' & H1 & H2 & H3). rewrite H1. cbn. auto.
@@ -354,7 +354,7 @@ Theorem skip_error_branch limit ovf ops n ap : Forall live ops ->
 Proof.
   intros Hl o Hn. destruct (exec_refines limit ovf ops o_new inv_new Hl) as (Hi & _). fold o in Hi.
   destruct (skip_err_spec ovf o n ap Hi Hn) as (o' & H1 & H2 & H3 & H4 & H5).
-  unfold step. rewrite H1. cbn. repeat split; auto.
+  unfold step, step_f. rewrite H1. cbn. repeat split; auto.
   rewrite (abs_len o' H2), (abs_len o Hi). now rewrite H3.
 Qed.
 
@@ -442,7 +442,7 @@ Lemma dead_step limit ovf o p : dead o ->
   (p <> OClose -> fst (step limit ovf o p) = o).
 Proof.
   intros (b & Hb & Hc).
-  destruct p as [s | n sk | n ap | | |]; unfold step.
+  destruct p as [s | n sk | n ap | | |]; unfold step, step_f.
   - unfold o_append, o_append_tail, fb_append. rewrite Hb, Hc. cbn.
     repeat split; try discriminate. exists b; auto.
   - unfold o_get, o_get_tail, fb_get. rewrite Hb, Hc. cbn.
@@ -469,7 +469,7 @@ Lemma thr_new limit ovf : inv_thr limit ovf o_new.
 Proof. left. reflexivity. Qed.
 
 Lemma thr_create limit ovf o : inv o -> ob_buf o = None ->
-  inv_thr limit ovf (fst (o_create_buffer ovf o)).
+  inv_thr limit ovf (fst (o_create_buffer FNone ovf o)).
 Proof.
   intros Hi Hb. destruct (create_buffer_spec ovf o Hi Hb) as (o1 & b & Hc & Hb1 & Hi1 & Ha1 & Hk).
   rewrite Hc. cbn [fst]. unfold inv_thr. rewrite Hb1. intro Hkb.
@@ -480,7 +480,7 @@ Proof.
 Qed.
 
 Lemma thr_append_tail limit ovf s o b : inv o -> ob_buf o = Some b ->
-  inv_thr limit ovf (fst (o_append_tail ovf s o b)).
+  inv_thr limit ovf (fst (o_append_tail FNone ovf s o b)).
 Proof.
   intros Hi Hb. inv_some Hi Hb.
   destruct (fb_append_spec b s Hfb) as (b' & Ha & Hi' & Habs & Hk' & Hp & Hc & Hr).
@@ -519,15 +519,15 @@ Qed.
 Lemma thr_step limit ovf o p : inv o -> inv_thr limit ovf o -> live p ->
   inv_thr limit ovf (fst (step limit ovf o p)).
 Proof.
-  intros Hi Ht Hl. destruct p as [s | n sk | n ap | | |]; unfold step.
+  intros Hi Ht Hl. destruct p as [s | n sk | n ap | | |]; unfold step, step_f.
   - unfold o_append. destruct (ob_buf o) as [b|] eqn:Hb.
     + pose proof (thr_append_tail limit ovf s o b Hi Hb) as H.
-      destruct (o_append_tail ovf s o b); exact H.
+      destruct (o_append_tail FNone ovf s o b); exact H.
     + destruct (lenZ (ob_strbuf o) + lenZ s <? Z.of_N limit) eqn:E.
       * cbn. unfold inv_thr. cbn [ob_buf ob_strbuf]. right. unfold lenZ in *. rewrite app_length. lia.
       * destruct (create_buffer_spec ovf o Hi Hb) as (o1 & b & Hc & Hb1 & Hi1 & _).
         rewrite Hc. pose proof (thr_append_tail limit ovf s o1 b Hi1 Hb1) as H.
-        destruct (o_append_tail ovf s o1 b); exact H.
+        destruct (o_append_tail FNone ovf s o1 b); exact H.
   - unfold o_get. destruct (ob_buf o) as [b|] eqn:Hb.
     + pose proof (thr_get_tail limit ovf n sk o b Hi Ht Hb) as H.
       destruct (o_get_tail n sk o b) as [o' [r|e]]; exact H.
@@ -610,7 +610,7 @@ Proof.
   { unfold exec. revert Hd Hlen. generalize oc. induction more as [|p more IH]; intros x Hd Hlen; cbn [fold_left]; [auto|].
     destruct (dead_step limit ovf x p Hd) as (H1 & _ & H3).
     apply IH; [exact H1|]. destruct p; try (rewrite H3 by discriminate; exact Hlen).
-    unfold step. cbn [fst]. destruct Hd as (bb & Hbb & _). unfold o_close, o_len. rewrite Hbb. reflexivity. }
+    unfold step, step_f. cbn [fst]. destruct Hd as (bb & Hbb & _). unfold o_close, o_len. rewrite Hbb. reflexivity. }
   destruct H as (H1 & H2). repeat split; auto.
   intros p bb. now apply dead_step.
 Qed.
@@ -630,7 +630,7 @@ Theorem flush_pattern limit ovf ops n m ap chunk : Forall live ops ->
 Proof.
   intros Hl o Hg Hm. destruct (exec_refines limit ovf ops o_new inv_new Hl) as (Hi & _). fold o in Hi.
   destruct (get_noskip_spec ovf o n Hi) as (b & H1 & H2).
-  unfold step in Hg |- *. rewrite H1 in *. cbn in Hg. injection Hg as ->. cbn [fst].
+  unfold step, step_f in Hg |- *. rewrite H1 in *. cbn in Hg. injection Hg as ->. cbn [fst].
   assert (Hp : is_prefix chunk (abs o)) by (destruct H2 as [-> | ->]; [apply q_peek_prefix | apply is_prefix_refl]).
   destruct Hp as (rest & Hr).
   assert (Hlen : Z.of_N m <= q_len (abs o)) by (unfold q_len; rewrite Hr, app_length; lia).
